@@ -168,3 +168,48 @@ Proof.
   exists p'. split; [reflexivity|]. rewrite C. unfold convbp. cbn [BasePartition_block BasePartition_segment bp_block bp_seg].
   rewrite map_upd. reflexivity.
 Qed.
+
+(* ================= Partition: the wrapper that also records the block of every element ================= *)
+Definition convfp (p : Partition) : fpart :=
+  {| fp_base := convbp (Partition_base p); fp_bid := map N.to_nat (Partition_block_id p) |}.
+
+(* the forwarders are the functions of the base partition, whatever their source form *)
+Lemma canon_fp_num_blocks p : M_Partition_num_blocks p = M_BasePartition_num_blocks (Partition_base p).
+Proof. unfold M_Partition_num_blocks, Partition_num_blocks. cbv [bind]. destruct (M_BasePartition_num_blocks (Partition_base p)); reflexivity. Qed.
+Lemma canon_fp_index p : M_Partition_index p = M_BasePartition_index (Partition_base p).
+Proof. unfold M_Partition_index, Partition_index. cbv [bind]. destruct (M_BasePartition_index (Partition_base p)); reflexivity. Qed.
+Lemma canon_fp_size p : M_Partition_size p = M_BasePartition_size_fn (Partition_base p).
+Proof. unfold M_Partition_size, Partition_size. cbv [bind]. destruct (M_BasePartition_size_fn (Partition_base p)); reflexivity. Qed.
+Lemma canon_fp_block_size p i : M_Partition_block_size p i = M_BasePartition_block_size (Partition_base p) i.
+Proof. unfold M_Partition_block_size, Partition_block_size. cbv [bind]. destruct (M_BasePartition_block_size (Partition_base p) i); reflexivity. Qed.
+Lemma canon_fp_smaller_block p i j : M_Partition_smaller_block p i j = M_BasePartition_smaller_block (Partition_base p) i j.
+Proof. unfold M_Partition_smaller_block, Partition_smaller_block. cbv [bind]. destruct (M_BasePartition_smaller_block (Partition_base p) i j); reflexivity. Qed.
+Lemma canon_fp_pick_element p i : M_Partition_pick_element p i = M_BasePartition_pick_element (Partition_base p) i.
+Proof. unfold M_Partition_pick_element, Partition_pick_element. cbv [bind]. destruct (M_BasePartition_pick_element (Partition_base p) i); reflexivity. Qed.
+
+Lemma link_fp_num_blocks p : fits (length (BasePartition_block (Partition_base p))) ->
+  M_Partition_num_blocks p = Some (N.of_nat (bp_num_blocks (fp_base (convfp p)))).
+Proof. intros H. rewrite canon_fp_num_blocks. apply link_num_blocks. exact H. Qed.
+Lemma link_fp_block_size p i h : nth_error (BasePartition_block (Partition_base p)) (N.to_nat i) = Some h ->
+  BlockHeader_start h <= BlockHeader_end h -> fits (BlockHeader_end h - BlockHeader_start h) ->
+  M_Partition_block_size p i = Some (N.of_nat (bp_block_size (fp_base (convfp p)) (N.to_nat i))).
+Proof. intros H1 H2 H3. rewrite canon_fp_block_size. apply (link_block_size _ _ h); assumption. Qed.
+
+Lemma map_repeat {A B} (f : A -> B) x n : map f (repeat x n) = repeat (f x) n.
+Proof. induction n as [|n IH]; cbn [repeat map]; [reflexivity|]. rewrite IH. reflexivity. Qed.
+
+(* new(n): the base partition and every element in block 1 *)
+Lemma link_fp_new n : (n < 4294967296)%N ->
+  exists p, M_Partition_new n = Some p /\ convfp p = fp_new (N.to_nat n).
+Proof.
+  intros Hn. unfold M_Partition_new, Partition_new. destruct (link_new n Hn) as (b & E & C). rewrite E. cbn [bind].
+  eexists. split; [reflexivity|]. unfold convfp, fp_new. cbn [Partition_base Partition_block_id]. rewrite C, map_repeat. reflexivity.
+Qed.
+(* block_id(x): the recorded block; a panic exactly when x is not an element *)
+Lemma link_fp_block_id p x : option_map N.to_nat (M_Partition_block_id_fn p x) = nth_error (fp_bid (convfp p)) (N.to_nat x).
+Proof. unfold M_Partition_block_id_fn, Partition_block_id_fn, convfp. cbn [fp_bid]. rewrite nth_error_map. reflexivity. Qed.
+Lemma link_fp_block_id_in p x : N.to_nat x < length (Partition_block_id p) ->
+  option_map N.to_nat (M_Partition_block_id_fn p x) = Some (fp_block_id (convfp p) (N.to_nat x)).
+Proof.
+  intros H. rewrite link_fp_block_id. unfold fp_block_id. apply nth_error_nth'. unfold convfp. cbn [fp_bid]. rewrite map_length. exact H.
+Qed.
